@@ -123,6 +123,43 @@ func c12Check(cs vshCase, d *vshDesc) []vshFinding { //nolint:gocognit,cyclop
 		if !found {
 			add("msid-missing|"+encClass, fmt.Sprintf("m-section %d does not announce the sending track with a=msid:%s (msid lines %v)", si, wantMsid, msids))
 		}
+		// RTX / FEC per encoding against an independent source: the codecs the harness registered
+		// (video/rtx and flexfec-03 exist for video only). Before any remote description is applied
+		// nothing can have switched them off, so every encoding of a video sender has an RTX SSRC
+		// iff video/rtx is registered and a FEC SSRC iff flexfec-03 is registered; audio has neither.
+		if !d.RemoteSet {
+			wantRTX := t.Kind == "video" && (cs.Cfg.Engine == "" || cs.Cfg.Engine == "flexfec")
+			wantFEC := t.Kind == "video" && (cs.Cfg.Engine == "flexfec" || cs.Cfg.Engine == "feconly")
+			for ei, e := range t.Enc {
+				encPos := "first"
+				if ei > 0 {
+					encPos = "later"
+				}
+				hasGroup := func(sem string) bool {
+					for _, v := range vshAttr(s.Lines, "ssrc-group") {
+						f := strings.Fields(v)
+						if len(f) >= 2 && f[0] == sem && f[1] == strconv.FormatUint(uint64(e.SSRC), 10) {
+							return true
+						}
+					}
+
+					return false
+				}
+				for _, x := range []struct {
+					name, sem string
+					want      bool
+					ssrc      uint32
+				}{{"rtx", "FID", wantRTX, e.RTX}, {"fec", "FEC-FR", wantFEC, e.FEC}} {
+					ctx := fmt.Sprintf("%s|registered=%v|%s|encoding=%s", x.name, x.want, encClass, encPos)
+					if (x.ssrc != 0) != x.want {
+						add("encoding-"+x.name+"-ssrc-vs-registered-codecs|"+ctx, fmt.Sprintf("encoding %d of the %s sender has %s SSRC %d, but %s registered=%v in the MediaEngine (%q)", ei, t.Kind, x.name, x.ssrc, x.name, x.want, cs.Cfg.Engine))
+					}
+					if hasGroup(x.sem) != x.want {
+						add("ssrc-group-vs-registered-codecs|"+x.sem+"|"+ctx, fmt.Sprintf("m-section %d: a=ssrc-group:%s for primary SSRC %d of encoding %d present=%v, but %s registered=%v in the MediaEngine (%q)", si, x.sem, e.SSRC, ei, hasGroup(x.sem), x.name, x.want, cs.Cfg.Engine))
+					}
+				}
+			}
+		}
 		announced := map[uint32]bool{}
 		for _, v := range vshAttr(s.Lines, "ssrc") {
 			id, _ := vScanCut(v)
@@ -294,6 +331,7 @@ func c12Alphabet(full bool) []vshOp {
 		{Side: "X", Op: "addk", Kind: "video", Dir: "recvonly"},
 		{Side: "X", Op: "addtft", Kind: "video", Dir: "sendrecv", N: 1},
 		{Side: "X", Op: "addtft", Kind: "video", Dir: "sendonly", N: 3},
+		{Side: "X", Op: "addtrack", Kind: "video", N: 2},
 		{Side: "X", Op: "rmtrack", Idx: 0},
 		{Side: "X", Op: "replace", Idx: 0, N: 0},
 		{Side: "X", Op: "replace", Idx: 0, N: 1},
@@ -332,12 +370,15 @@ func TestVerifC12(t *testing.T) {
 	depth := c.Pick(3, 4)
 	alpha := c12Alphabet(false)
 	var cfgs []vshCfg
-	for _, eng := range []string{"", "nortx", "flexfec"} {
+	for _, eng := range []string{"", "nortx", "flexfec", "feconly"} {
 		for _, always := range []bool{false, true} {
+			if quick && always && eng != "" {
+				continue // quick: AlwaysNegotiateDataChannels with the default engine only
+			}
 			cfgs = append(cfgs, vshCfg{Sem: "unified", Engine: eng, AlwaysDC: always})
 		}
 	}
-	c.Rule(fmt.Sprintf("explicit-state BFS over histories of local operations (AddTrack, AddTransceiverFromKind, AddTransceiverFromTrack with 1 or 3 simulcast encodings, RemoveTrack, ReplaceTrack(nil|other), CreateDataChannel), each followed by CreateOffer, interleaved with complete exchanges in both directions against a second real PeerConnection that may add a data channel or a transceiver (successor = replay on fresh objects + one operation): alphabet of %d operations, merged on a canonical negotiation state, depth %d, MediaEngine default (RTX) | without RTX | with flexfec-03 x AlwaysNegotiateDataChannels; every offer is compared with GetTransceivers()/Sender().GetParameters() of the generating side; distinct = configuration x (kind, direction, track/encodings/RTX/FEC) list of the transceivers x application section", len(alpha), depth))
+	c.Rule(fmt.Sprintf("explicit-state BFS over histories of local operations (AddTrack, AddTransceiverFromKind, AddTrack with 2 and AddTransceiverFromTrack with 1 or 3 simulcast encodings (Sender.AddEncoding), RemoveTrack, ReplaceTrack(nil|other), CreateDataChannel), each followed by CreateOffer, interleaved with complete exchanges in both directions against a second real PeerConnection that may add a data channel or a transceiver (successor = replay on fresh objects + one operation): alphabet of %d operations, merged on a canonical negotiation state, depth %d, MediaEngine default (RTX only) | neither RTX nor FEC | RTX + flexfec-03 | flexfec-03 only x AlwaysNegotiateDataChannels; every offer is compared with GetTransceivers()/Sender().GetParameters() of the generating side; distinct = configuration x (kind, direction, track/encodings/RTX/FEC) list of the transceivers x application section", len(alpha), depth))
 	c.Set("alphabet", fmt.Sprint(alpha))
 	c.Set("depth_merged", depth)
 	c.Set("configurations", fmt.Sprint(cfgs))
